@@ -48,6 +48,7 @@ def main(argv):
     rep = vlib.Report(PID, 'model_checking', argv)
     vlib.build_harness()
     th = rep.tier == 'thorough'
+    parts_subject.model_part(rep)
     parts_share.run_seq(rep, PID, th)
     gauge_part(rep, 1000 if th else 300, [rep.seed * 100 + i for i in range(5 if th else 1)], park=False)
     gauge_part(rep, 120 if th else 30, [rep.seed * 100 + 50 + i for i in range(3 if th else 1)], park=True)
